@@ -260,6 +260,15 @@ func c16case(c map[string]any) any {
 	var chosen discover.GpuInfoList
 	switch c["op"] {
 	case "probe":
+		// TotalSize on a cpu inventory for every parallel setting: lets the generator aim free system memory between them
+		tot := map[string]string{}
+		for _, p := range ps {
+			o2 := opts
+			o2.NumCtx = orig * p
+			e := llm.EstimateGPULayers([]discover.GpuInfo{{Library: "cpu"}}, f, projectors, o2, p)
+			tot[strconv.Itoa(p)] = c16s(e.TotalSize)
+		}
+		res["cpu_totals"] = tot
 		return res
 	case "loaded":
 		// processPending, "More than one loaded model, so we have to see if the new one fits"
@@ -304,6 +313,8 @@ func c16case(c map[string]any) any {
 				chosen = discover.GpuInfoList{}
 			}
 		}
+	case "cpu":
+		return c16cpu(c, res, s, runnerList, req, f, gpus, projectors)
 	default:
 		return map[string]any{"harness_error": "unknown op"}
 	}
@@ -330,6 +341,84 @@ func c16case(c map[string]any) any {
 			})
 		}
 	}
+	return res
+}
+
+func c16estOut(e llm.MemoryEstimate) map[string]any {
+	sizes := make([]string, 0, len(e.GPUSizes))
+	for _, x := range e.GPUSizes {
+		sizes = append(sizes, c16s(x))
+	}
+	internals := map[string]string{}
+	for k, v := range e.VerifInternals() {
+		internals[k] = c16s(v)
+	}
+	return map[string]any{"layers": e.Layers, "graph": c16s(e.Graph), "vram": c16s(e.VRAMSize), "total": c16s(e.TotalSize),
+		"split": e.TensorSplit, "sizes": sizes, "internals": internals}
+}
+
+// c16cpu drives the REAL Scheduler.processPending through its CPU branch: the inventory functions report one "cpu" entry
+// with scripted free system memory, other runners are loaded (idle), OLLAMA_NUM_PARALLEL is unset / set; loadFn is
+// replaced by a recorder.  Observed: either the configuration handed to loadFn (opts.NumCtx, numParallel, gpus) or the
+// runner that was sent to expire.
+func c16cpu(c map[string]any, res map[string]any, s *Scheduler, runnerList []*runnerRef, req *LlmRequest, f *ggml.GGML,
+	gpus discover.GpuInfoList, projectors []string) any {
+	os.Unsetenv("OLLAMA_MAX_LOADED_MODELS")
+	if np := c16int(c["num_parallel"]); np != 0 {
+		os.Setenv("OLLAMA_NUM_PARALLEL", strconv.Itoa(np))
+	} else {
+		os.Unsetenv("OLLAMA_NUM_PARALLEL")
+	}
+	defer os.Unsetenv("OLLAMA_NUM_PARALLEL")
+	defer os.Unsetenv("OLLAMA_MAX_LOADED_MODELS")
+	s.pendingReqCh = make(chan *LlmRequest, 4)
+	s.finishedReqCh = make(chan *LlmRequest, 4)
+	s.expiredCh = make(chan *runnerRef, 4)
+	s.unloadedCh = make(chan any, 4)
+	s.reschedDelay = time.Millisecond
+	inv := func() discover.GpuInfoList { return append(discover.GpuInfoList{}, gpus...) }
+	s.getGpuFn, s.getCpuFn = inv, inv
+	type loadRec struct {
+		numCtx, numParallel int
+		gpus                discover.GpuInfoList
+		opts                api.Options
+	}
+	loadCh := make(chan loadRec, 1)
+	s.loadFn = func(req *LlmRequest, f *ggml.GGML, gpus discover.GpuInfoList, numParallel int) {
+		loadCh <- loadRec{req.opts.NumCtx, numParallel, append(discover.GpuInfoList{}, gpus...), req.opts}
+	}
+	for _, r := range runnerList {
+		r.sessionDuration = time.Hour
+	}
+	ctx, cancel := context.WithCancel(context.Background())
+	done := make(chan struct{})
+	req.ctx = ctx
+	req.origNumCtx = 0 // processPending records it from opts.NumCtx on the first attempt
+	req.successCh = make(chan *runnerRef, 1)
+	req.errCh = make(chan error, 1)
+	go func() { s.processPending(ctx); close(done) }()
+	s.pendingReqCh <- req
+	select {
+	case l := <-loadCh:
+		res["action"] = "load"
+		res["num_ctx"] = l.numCtx
+		res["p"] = l.numParallel
+		res["chosen"] = c16gpuOut(l.gpus)
+		// what Scheduler.load -> llm.NewLlamaServer computes for exactly this configuration
+		res["est"] = c16guard(func() any {
+			return c16estOut(llm.EstimateGPULayers(l.gpus, f, projectors, l.opts, max(l.numParallel, 1)))
+		})
+	case r := <-s.expiredCh:
+		res["action"] = "evict"
+		res["evicted"] = r.modelPath
+	case err := <-req.errCh:
+		res["action"] = "error"
+		res["error"] = err.Error()
+	case <-time.After(10 * time.Second):
+		res["action"] = "timeout"
+	}
+	cancel()
+	<-done
 	return res
 }
 
